@@ -60,6 +60,98 @@ def none_excluded(facts, target_text) -> bool:
     return False
 
 
+def eager_import_closure(prog, roots):
+    """Modules whose code has certainly run once every module of `roots` has been imported: the transitive closure over MODULE-LEVEL import
+    statements (also those under module-level try / if / with), plus the parent packages of everything imported. Imports inside functions
+    and classes' methods happen later (or never) and do not count."""
+    def module_level_imports(m):
+        out = []
+        stack = list(m.tree.body)
+        while stack:
+            st = stack.pop()
+            if isinstance(st, (ast.Import, ast.ImportFrom)):
+                out.append(st)
+            elif isinstance(st, (ast.If, ast.Try, ast.With, ast.For, ast.While)) or type(st).__name__ == "TryStar":
+                for attr in ("body", "orelse", "finalbody"):
+                    stack += getattr(st, attr, []) or []
+                for h in getattr(st, "handlers", []) or []:
+                    stack += h.body
+        return out
+
+    def with_parents(name):
+        parts = name.split(".")
+        return [".".join(parts[:i]) for i in range(1, len(parts) + 1)]
+
+    seen = set()
+    todo = [r for r in roots]
+    while todo:
+        name = todo.pop()
+        for q in with_parents(name):
+            if q in seen or q not in prog.modules:
+                continue
+            seen.add(q)
+            m = prog.modules[q]
+            pkg = q if m.is_package else q.rpartition(".")[0]
+            for st in module_level_imports(m):
+                if isinstance(st, ast.Import):
+                    todo += [a.name for a in st.names]
+                else:
+                    base_ = st.module or ""
+                    if st.level:
+                        anchor = pkg.split(".")
+                        anchor = anchor[: len(anchor) - (st.level - 1)] if st.level > 1 else anchor
+                        base_ = ".".join(anchor + ([st.module] if st.module else []))
+                    todo.append(base_)
+                    todo += [f"{base_}.{a.name}" for a in st.names if f"{base_}.{a.name}" in prog.modules]
+    return seen
+
+
+def check_submodule_attributes(ctx, rule, using):
+    """`pkg.sub.X` where `sub` is a sub-module of `pkg` only works if somebody has imported pkg.sub before: the attribute is put on the
+    package by the import system, not by the package's own code."""
+    prog = ctx.prog
+    ctx.rule(rule, "a sub-module reached as an attribute of its package (`fieldtypes.net.ipaddress`) has been imported by module-level code that certainly ran before: "
+                   "it is in the module-level import closure of flow.record/__init__ and of the module that uses it - an import inside a function does not count")
+    n = 0
+    for mq in using:
+        m = prog.module(mq)
+        ctx.use(m)
+        closure = eager_import_closure(prog, ["flow.record", mq])
+        binds = {}
+        for name, recs in m.symbols.items():
+            for r in recs:
+                if r[0] == "import" and r[1] in prog.modules:
+                    binds[name] = r[1]
+                elif r[0] == "from" and f"{r[1]}.{r[2]}" in prog.modules:
+                    binds[name] = f"{r[1]}.{r[2]}"
+        seen_sites = set()
+        for a in ast.walk(m.tree):
+            if not isinstance(a, ast.Attribute):
+                continue
+            chain = dotted(a)
+            if not chain:
+                continue
+            parts = chain.split(".")
+            if parts[0] not in binds:
+                continue
+            cur = binds[parts[0]]
+            for attr in parts[1:]:
+                sub = f"{cur}.{attr}"
+                if sub not in prog.modules:
+                    break
+                if attr in prog.modules[cur].symbols and any(r[0] != "import" for r in prog.modules[cur].symbols[attr]):
+                    cur = sub
+                    continue  # the package binds the name itself (from . import sub / an assignment)
+                if (sub, a.lineno) not in seen_sites:
+                    seen_sites.add((sub, a.lineno))
+                    n += 1
+                    ctx.check(sub in closure, rule, f"{mq.split('.')[-1]}:{sub}", f"`{chain}` reads the sub-module {sub} as an attribute of its package, but no module-level import that "
+                              f"certainly ran before ({mq} and what flow.record/__init__ pulls in) imports it: in a process where nothing else has imported it yet the access raises "
+                              "AttributeError and the value cannot be written", a, f"{sub} imported at module level on the way", key=f"{rule}:{mq.split('.')[-1]}:{sub}:not-imported-eagerly")
+                cur = sub
+    ctx.floor(rule, "package-attribute accesses to sub-modules in the JSON packer / adapter", n, 1)
+
+
 def json_line_writers(ctx):
     """The methods of JsonfileWriter that put a line on the file: the private `_write` where it exists, otherwise (the helper folded into
     its two callers) every method that calls self.fp.write. At least one must exist."""
@@ -407,6 +499,9 @@ def run(ctx):
     # ------------------------------------------------------------------ R14.6 generated code and falsy values
     from .c05 import check_generated_value_tests
     check_generated_value_tests(ctx, "R14.6")
+
+    # ------------------------------------------------------------------ R14.8 sub-modules used as package attributes are imported eagerly
+    check_submodule_attributes(ctx, "R14.8", ["flow.record.jsonpacker", "flow.record.adapter.jsonfile"])
 
     # ------------------------------------------------------------------ R14.7 (sibling rule) what the JSON packer serialises was validated
     ctx.import_rule("C05", "R5.4", "R14.7", "the JSON form of a digest is its hex attributes: a rejected assignment must leave them unchanged, or the line carries a value the reader refuses")
